@@ -140,6 +140,11 @@ def gen_colours(rng, hostile):
         L.append(f"SliderBorder : {rng.randint(0, 255)},{rng.randint(0, 255)},{rng.randint(0, 255)}")
     if rng.random() < hostile:
         L.append(rng.choice(COLOR_LINES))
+    if rng.random() < 0.08:
+        # a custom colour whose (trimmed) name looks like a section header, a key with brackets (seed C04-l)
+        L.append(rng.choice([" [Events]: 1,2,3", " [General] : 4,5,6", "\t[HitObjects]: 7,8,9", " [Colours]x: 1,1,1", " [TimingPoints]: 9,9,9"]))
+        if rng.random() < 0.5:
+            L.append(f"SliderBorder : {rng.randint(0, 255)},5,6")
     return L
 
 
